@@ -215,9 +215,47 @@ func (v *Verifier) propFunctions(prop string) []*ssa.Function {
 		}
 		if con != nil && con.Props[prop] && !con.Trusted {
 			out = append(out, f)
+			continue
+		}
+		// a caller of a function whose precondition is tagged with the property must establish it,
+		// even if the caller carries no clause of the property itself
+		if (con == nil || !con.Trusted) && v.callsTaggedRequires(f, prop) {
+			out = append(out, f)
 		}
 	}
 	return out
+}
+
+func (v *Verifier) callsTaggedRequires(f *ssa.Function, prop string) bool {
+	for _, b := range f.Blocks {
+		for _, in := range b.Instrs {
+			ci, ok := in.(ssa.CallInstruction)
+			if !ok {
+				continue
+			}
+			g := ci.Common().StaticCallee()
+			if g == nil {
+				continue
+			}
+			gc := v.contractOf(g)
+			if gc == nil {
+				continue
+			}
+			for _, r := range gc.Requires {
+				for _, t := range r.Tags {
+					if t == prop {
+						return true
+					}
+					for _, u := range propUses[prop] {
+						if t == u {
+							return true
+						}
+					}
+				}
+			}
+		}
+	}
+	return false
 }
 
 func cmdCheck(args []string) int {
